@@ -22,9 +22,11 @@ import (
 )
 
 type DeepNode struct {
-	Type  string               `json:"type"` // integer number boolean string array object
-	Items *DeepNode            `json:"items,omitempty"`
-	Props map[string]*DeepNode `json:"properties,omitempty"`
+	Type   string               `json:"type"` // integer number boolean string array object
+	Format string               `json:"format,omitempty"`
+	Items  *DeepNode            `json:"items,omitempty"`
+	Props  map[string]*DeepNode `json:"properties,omitempty"`
+	AP     *DeepNode            `json:"additionalProperties,omitempty"`
 }
 
 type C05Deep struct {
@@ -36,7 +38,10 @@ type C05Deep struct {
 }
 
 func (n *DeepNode) toSchema() *openapi3.Schema {
-	s := &openapi3.Schema{Type: &openapi3.Types{n.Type}}
+	s := &openapi3.Schema{Type: &openapi3.Types{n.Type}, Format: n.Format}
+	if n.AP != nil {
+		s.AdditionalProperties = openapi3.AdditionalProperties{Schema: n.AP.toSchema().NewRef()}
+	}
 	if n.Items != nil {
 		s.Items = n.Items.toSchema().NewRef()
 	}
